@@ -495,6 +495,184 @@ def run_views(ctx, n):
                     "missing": sorted(set(exp) - set(v)) if isinstance(v, dict) else None})
 
 
+# ---------------------------------------------------------------------------------------------------------------------
+# string fields are opaque: whatever spelling a back end (or a user) put into version_id / etag / checksum / md5 / remote /
+# the hash value has to come back character for character from every persistent form
+# ---------------------------------------------------------------------------------------------------------------------
+
+ODD_STRINGS = [
+    '"0x8DA1B2C3D4E5F60"',  # a quoted ETag header value (what Meta.from_info keeps for azure)
+    'W/"5d8c72a5edda8"',  # weak validator
+    '"unbalanced', "trailing'", "'single'", '""', '"',
+    " padded ", "\tlead-tab", "trail-nl\n", " ",
+    "ABCDEF0123456789ABCDEF0123456789", "d41d8cd98f00b204e9800998ecf8427e-5",
+    "0", "00123", "1e3", "null", "true", "None", "-1",
+    "é", "ü-日本", "a b", "a/b", "\\back\\slash", '{"k": 1}', "%41%2F", "x.dir", ".dir", "CKS==", "Zm9v",
+]
+
+
+def collected_meta(rng):
+    """metadata the way Meta.from_info collects it from the info dictionaries of the various file systems"""
+    from dvc_data.hashfile.meta import Meta
+
+    hexs = md5hex(str(rng.random()).encode())
+    proto = rng.choice(["azure", "azure", "s3", "gs", "http", "https", "local", None])
+    info = {"type": "file", "size": rng.choice([0, 3, 1 << 40])}
+    if proto == "azure":
+        info["etag"] = rng.choice(["0x8D" + hexs[:13].upper(), '"0x8D' + hexs[:13].upper() + '"'])
+        if rng.random() < 0.5:
+            info["version_id"] = "2024-01-01T00:00:00.0000000Z"
+    elif proto == "s3":
+        info["ETag"] = rng.choice(['"%s"' % hexs, '"%s-12"' % hexs])
+        if rng.random() < 0.5:
+            info["VersionId"] = rng.choice(["null", "3HL4kqtJlcpXroDTDmJ.rUMvJ9gF"])
+    elif proto == "gs":
+        import base64
+
+        info["etag"] = base64.b64encode(bytes.fromhex(hexs[:16])).decode()
+        if rng.random() < 0.5:
+            info["generation"] = "1700000000000000"
+    elif proto in ("http", "https"):
+        info[rng.choice(["ETag", "Content-MD5"])] = rng.choice(['"%s"' % hexs[:12], 'W/"%s"' % hexs[:12], "1B2M2Y8AsgTpgAmY7PhCfg=="])
+    else:
+        info.update({"md5": hexs, "ino": 7, "mtime": 1.5, "mode": rng.choice([0o100644, 0o100755])})
+    if rng.random() < 0.2:
+        info["remote"] = rng.choice(["origin", '"quoted remote"'])
+    return proto, Meta.from_info(info, protocol=proto)
+
+
+def odd_meta(rng):
+    from dvc_data.hashfile.meta import Meta
+
+    def s():
+        return rng.choice(ODD_STRINGS) if rng.random() < 0.4 else None
+
+    return Meta(size=rng.choice([None, 0, 7]), isexec=rng.random() < 0.2, version_id=s(), etag=s(), checksum=s(), md5=s(), remote=s())
+
+
+def verbatim_entry(rng, k):
+    """an entry whose string fields carry back-end / odd spellings; for cloud-versioned style entries the hash is the
+    metadata field itself (HashInfo('etag', meta.etag))"""
+    from dvc_data.hashfile.hash_info import HashInfo
+    from dvc_data.index.index import DataIndexEntry
+
+    if rng.random() < 0.5:
+        src, m = collected_meta(rng)
+        src = "collected:%s" % src
+    else:
+        src, m = "odd", odd_meta(rng)
+    r = rng.random()
+    mirror = [f for f in ("etag", "checksum", "md5") if getattr(m, f)]
+    if r < 0.5 and mirror:
+        f = rng.choice(mirror)
+        hi = HashInfo(f, getattr(m, f))
+    elif r < 0.85:
+        hi = HashInfo(rng.choice(["md5", "md5-dos2unix", "etag", "checksum", "sha256"]), rng.choice(ODD_STRINGS))
+    else:
+        hi = None
+    return src, DataIndexEntry(key=k, meta=m, hash_info=hi, loaded=rng.choice([None, True, False]))
+
+
+def run_verbatim_values(ctx, n):
+    """every persistent form gives string fields back unchanged (quotes, weak-validator prefixes, surrounding blanks, case,
+    numeric / keyword look-alikes, non-ASCII ...), with metadata as Meta.from_info collects it per protocol"""
+    from dvc_data.hashfile.hash_info import HashInfo
+    from dvc_data.hashfile.meta import Meta
+    from dvc_data.hashfile.tree import Tree
+    from dvc_data.index.index import DataIndex, DataIndexEntry
+    from dvc_data.index.serialize import read_db, read_json, write_db, write_json
+
+    rng = ctx.rng
+    root = ctx.mkdtemp()
+    for i in range(n):
+        ents = {}
+        for _ in range(rng.randrange(1, 5)):
+            k = tuple("k%d" % rng.randrange(6) for _ in range(rng.randrange(1, 3)))
+            src, e = verbatim_entry(rng, k)
+            ents[k] = e
+            ctx.count("verbatim:meta=%s" % src)
+        case = {"verbatim": [{"key": list(k), **_ent_json(e)} for k, e in ents.items()]}
+        ctx.case(case)
+        expect = dict(sorted({"/".join(k): proj(e) for k, e in ents.items()}.items()))
+
+        # 1. dictionaries (directly and through their JSON text)
+        for k, e in ents.items():
+            for via_json in (False, True):
+                def tr(d):
+                    return json.loads(json.dumps(d)) if via_json else d
+
+                kind, b = safe_call(lambda: DataIndexEntry.from_dict(tr(e.to_dict())))
+                ctx.oracle(kind == "ok" and proj(b) == proj(e), case,
+                           {"why": "entry -> dict -> entry changed a serialised field", "key": list(k), "via_json_text": via_json,
+                            "before": proj(e), "after": proj(b) if kind == "ok" else b})
+                kind, m2 = safe_call(lambda: Meta.from_dict(tr(e.meta.to_dict())))
+                ctx.oracle(kind == "ok" and _md(m2) == _md(e.meta), case,
+                           {"why": "Meta -> dict -> Meta changed a serialised field", "key": list(k), "via_json_text": via_json,
+                            "before": _md(e.meta), "after": _md(m2) if kind == "ok" else m2})
+                if e.hash_info is not None:
+                    kind, h2 = safe_call(lambda: HashInfo.from_dict(tr(e.hash_info.to_dict())))
+                    ctx.oracle(kind == "ok" and (h2.name, h2.value) == (e.hash_info.name, e.hash_info.value), case,
+                               {"why": "HashInfo -> dict -> HashInfo changed", "key": list(k), "after": str(h2)})
+
+        def mk(idx):
+            for k, e in ents.items():
+                idx[k] = DataIndexEntry(key=k, meta=e.meta, hash_info=e.hash_info, loaded=e.loaded)
+            return idx
+
+        # 2. the persistent forms of an index
+        def fj():
+            p = os.path.join(root, f"s{i}.json")
+            write_json(mk(DataIndex()), p)
+            return index_items(read_json(p))
+
+        def fd():
+            p = os.path.join(root, f"s{i}.db")
+            write_db(mk(DataIndex()), p)
+            return index_items(read_db(p))
+
+        def fs():
+            p = os.path.join(root, f"s{i}.sqlite")
+            idx = mk(DataIndex.open(p))
+            idx.commit()
+            idx.close()
+            idx2 = DataIndex.open(p)
+            try:
+                return index_items(idx2)
+            finally:
+                idx2.close()
+
+        forms = [("JSON file", fj), ("key-value DB", fd), ("SQLite-backed index after commit/close/reopen", fs)]
+        for what, f in (forms if i % 3 == 0 else [forms[rng.randrange(3)]]):
+            kind, v = safe_call(f)
+            ctx.count("verbatim:form=%s" % what.split()[0])
+            ctx.oracle(kind == "ok" and v == expect, case,
+                       {"why": what + " does not give the string fields back unchanged", "impl": v,
+                        "differs": sorted(k for k in expect if not isinstance(v, dict) or v.get(k) != expect[k])})
+
+        # 3. a listing written with metadata, parsed with its hash name: the hash is the metadata field of that name
+        for name in ("md5", "md5-dos2unix", "etag", "checksum"):
+            mname = "md5" if name == "md5-dos2unix" else name
+            t, exp = Tree(), {}
+            for k, e in ents.items():
+                v = getattr(e.meta, mname)
+                if not v:
+                    continue
+                t.add(k, e.meta, HashInfo(name, v))
+                exp["/".join(k)] = {"hash": [name, v], "meta": _md(e.meta)}
+            if not exp:
+                continue
+            ctx.count("verbatim:listing_hash=%s" % name)
+
+            def fl():
+                t2 = Tree.from_list(json.loads(t.as_bytes(with_meta=True)), hash_name=name)
+                return {"/".join(k): {"hash": [h.name, h.value], "meta": _md(m)} for k, m, h in t2}
+
+            kind, v = safe_call(fl)
+            ctx.oracle(kind == "ok" and v == exp, case,
+                       {"why": "listing with metadata, parsed with hash name %r, does not give the same entries" % name,
+                        "impl": v, "expected": exp})
+
+
 def _entry_proj(e):
     h = e.hash_info
     return {"meta": _md(e.meta), "hash": [h.name, h.value] if h else None, "loaded": e.loaded}
@@ -514,7 +692,12 @@ def run(ctx):
         "(incl. the root key); listings written with metadata for md5 / md5-dos2unix / etag / checksum; SQLite-backed indexes with unloaded directory objects loaded on demand (iteration, listing, lookup, load) then committed, closed and reopened; "
         "SQLite-backed indexes written through several handles - the owning index and views of its sub-trees (index.view(prefix), views of views, "
         "view(())), writes through views only / mixed / owner only, relative keys incl. the view's root key, intermediate commits on any handle - "
-        "then commit on the owning index, close, reopen, compared under absolute keys. "
+        "then commit on the owning index, close, reopen, compared under absolute keys; "
+        "string fields as opaque values: metadata as Meta.from_info collects it per protocol (azure quoted ETags, s3 / gs / http(s) "
+        "validators, version ids, local) and odd spellings (quotes, weak-validator prefix, surrounding blanks / tab / newline, upper case, "
+        "multipart suffix, numeric / keyword look-alikes, non-ASCII, '/' and '.dir' inside a value) in version_id / etag / checksum / md5 / "
+        "remote / the hash value, hashes mirroring a metadata field (cloud-versioned style), through dict (and its JSON text), JSON file, "
+        "key-value DB, SQLite reopen and listings with metadata parsed under md5 / md5-dos2unix / etag / checksum (oracle only). "
         "non-trivial = entry has meta or hash / index has >= 2 entries; distinct = sha256 of the canonical case"
     )
     ctx.assumptions = ["Meta() and None both project to {} (an all-default Meta serialises to no field)",
@@ -524,6 +707,7 @@ def run(ctx):
     run_listing_with_meta(ctx, ctx.n(150, 1500))
     run_lazy_persist(ctx, ctx.n(40, 400))
     run_views(ctx, ctx.n(100, 1000))
+    run_verbatim_values(ctx, ctx.n(60, 600))
 
 
 def search(ctx):
@@ -532,6 +716,7 @@ def search(ctx):
     run_listing_with_meta(ctx, 1500)
     run_lazy_persist(ctx, 400)
     run_views(ctx, 1000)
+    run_verbatim_values(ctx, 600)
 
 
 def replay(ctx, payload):
